@@ -223,6 +223,20 @@ def restore_zone(old, z):
     time.tzset()
 
 
+def worker_env(w):
+    """Interpreter configuration of hypothesis worker w: every fourth worker runs the tree with its assert statements compiled
+    out (as `python -O` does), every fourth with the library's loggers enabled down to DEBUG."""
+    if os.environ.get("VERIF_ZONES", "1") == "0":
+        return {"asserts_stripped": False, "debug_logging": False}
+    return {"asserts_stripped": w % 4 == 2, "debug_logging": w % 4 == 1}
+
+
+def apply_env(e):
+    e = e or {}
+    env.set_optimize(bool(e.get("asserts_stripped")))
+    env.set_debug_logging(bool(e.get("debug_logging")))
+
+
 def _seed_for(pid, seed, w):
     h = hashlib.sha256(f"{seed}/{pid}/{w}".encode()).digest()
     return int.from_bytes(h[:8], "big")
@@ -244,6 +258,11 @@ def _hyp_worker(args):
         zone = LOCAL_ZONES[w % len(LOCAL_ZONES)] if os.environ.get("VERIF_ZONES", "1") != "0" else None
         apply_zone(zone)
         st.classes["worker_local_zone:" + (zone or "ambient")] += 1
+        wenv = worker_env(w)
+        apply_env(wenv)
+        for k, v in wenv.items():
+            if v:
+                st.classes["worker_" + k] += 1
 
         shrink_budget = float(os.environ.get("VERIF_SHRINK_S", "45" if tier == "quick" else "180"))
         try:  # Hypothesis's own cap on shrinking time (default 300 s); affects only the size of the reported case
@@ -271,7 +290,7 @@ def _hyp_worker(args):
                     st.evals += 1
                     st.classes["excluded_known"] += 1
                     return
-                hold["last"] = {"kind": "case", "case": case, "message": v.msg, "tz": zone}
+                hold["last"] = {"kind": "case", "case": case, "message": v.msg, "tz": zone, "env": {k: v for k, v in wenv.items() if v}}
                 hold["last_hash"] = case_hash(case)
                 if not hold.get("deadline"):
                     hold["deadline"] = time.time() + shrink_budget
@@ -357,6 +376,7 @@ def run_replay(mod, doc, known):
     kind = doc.get("kind", "case")
     case = doc["case"]
     old_tz = apply_zone(doc.get("tz"))
+    apply_env(doc.get("env"))
     try:
         try:
             if kind == "case":
@@ -365,6 +385,8 @@ def run_replay(mod, doc, known):
                 getattr(mod, "replay_" + kind)(case)
         finally:
             restore_zone(old_tz, doc.get("tz"))
+            if doc.get("env"):
+                apply_env(None)
     except Violation as v:
         key = classify(mod, case, v, known) if kind == "case" else None
         if key is None and kind != "case":
@@ -384,6 +406,8 @@ def write_replay(pid, tier, seed, failure):
     body = {"property": pid, "kind": failure.get("kind", "case"), "case": failure["case"], "message": failure.get("message", ""), "tier": tier, "seed": seed}
     if failure.get("tz"):
         body["tz"] = failure["tz"]  # the local time zone of the worker that found it
+    if failure.get("env"):
+        body["env"] = failure["env"]  # its interpreter configuration (asserts stripped / debug logging)
     h = hashlib.sha1(canon(body["case"]).encode()).hexdigest()[:10]
     path = os.path.join(d, f"{pid}-{tier}-{seed}-{h}.json")
     with open(path, "w") as f:
@@ -545,7 +569,7 @@ def _write_evidence(mod, pid, tier, seed, total, wall, nviol, known, error=None)
         "known_findings_listed": sorted(known),
         "notes": total.notes,
         "tree": env.REPO,
-        "environment": "generated cases run in 16 worker processes; every second worker has its local time zone set (TZ + tzset) to one of " + ", ".join(z for z in LOCAL_ZONES if z) + "; the others run in the ambient zone; a failing case's zone is stored in its replay file",
+        "environment": "generated cases run in 16 worker processes; every second worker has its local time zone set (TZ + tzset) to one of " + ", ".join(z for z in LOCAL_ZONES if z) + "; the others run in the ambient zone; every fourth worker imports the tree with assert statements compiled out (python -O), every fourth with the library's loggers enabled down to DEBUG; a failing case's zone and configuration are stored in its replay file",
     }
     if getattr(mod, "EXHAUSTIVE_NOTE", None):
         cov["exhaustive_part"] = mod.EXHAUSTIVE_NOTE
